@@ -34,7 +34,8 @@ Inductive leaf : Type :=
 | LInt (z : Z) | LFloat (n : Z) (d : N) | LStr (s : str) | LBool (b : bool) | LBad.
 
 (* Backing data graph served by default-like synchronous resolvers:
-   a resolver for field f on [DObj _ kvs] returns [lookup f kvs] (absent = null);
+   a resolver for field f on [DObj _ kvs] returns [lookup f kvs] (absent = null), on any other
+   value it returns null (the value has no fields);
    [DRaise] = the resolver raises (or, inside a list, the item is an exception instance).
    The type name of [DObj] is what [__typename]-based type resolution sees. *)
 Inductive data : Type :=
